@@ -119,18 +119,42 @@ Proof. exact warning_order_is_choice. Qed.
 Theorem C14_imap_inv_def : forall m,
   imap_inv m <-> (NoDup (map fst m) /\ forall k v, In (k, v) m -> im_path v = k).
 Proof. exact imap_inv_unfold. Qed.
-Theorem C14_calc_imports_inv : forall specs, imap_inv (calc_imports specs).
-Proof. exact calc_imports_inv. Qed.
+(* calcImports (the map part of the handler; overwritten entries go to the `shadowed` slice) *)
+Theorem C14_calc_imports_inv : forall specs, imap_inv (ih_imports (calc_handler specs)).
+Proof. exact calc_handler_inv. Qed.
 Theorem C14_add_named_inv : forall path name ispkg m,
   imap_inv m -> imap_inv (add_named path name ispkg m).
 Proof. exact add_named_inv. Qed.
 
-(* GetActive: range over the map, keep the entries in use, sort.Slice by PkgPath *)
-Theorem C14_imports : forall m, imap_inv m ->
+(* UseName ranges over the map and sets inUse on every entry whose alias matches: each write
+   goes to its own entry, so the handler afterwards is the same in every order ... *)
+Theorem C14_use_name : forall pi pi' name h, imap_inv (ih_imports h) -> iter_ok pi ->
+  iter_ok pi' -> use_name pi name h = use_name pi' name h.
+Proof. exact use_name_indep. Qed.
+(* ... and still a map filed by PkgPath *)
+Theorem C14_use_name_inv : forall pi name h, imap_inv (ih_imports h) -> iter_ok pi ->
+  imap_inv (ih_imports (use_name pi name h)).
+Proof. exact use_name_inv. Qed.
+
+(* GetActive: the in-use entries of the map (map order), then the in-use shadowed ones (slice
+   order), sort.Slice by (PkgPath, Alias).  Assumed: entries with equal (path, alias) are
+   equal — an alias names one import spec of a Go file; the only repeatable name is `_`, and
+   two `_ "p"` specs of one path give equal entries *)
+Theorem C14_imports : forall h,
+  (forall a b, In a (map snd (ih_imports h) ++ ih_shadowed h) ->
+               In b (map snd (ih_imports h) ++ ih_shadowed h) ->
+               im_path a = im_path b -> im_alias a = im_alias b -> a = b) ->
   forall pi pi' srt srt', iter_ok pi -> iter_ok pi' ->
   sort_ok import_lt srt -> sort_ok import_lt srt' ->
-  get_active pi srt m = get_active pi' srt' m.
+  get_active pi srt h = get_active pi' srt' h.
 Proof. exact get_active_indep. Qed.
+(* the same under the simpler, stronger hypothesis that the (path, alias) pairs are distinct *)
+Theorem C14_imports_nodup : forall h,
+  NoDup (map (fun d => (im_path d, im_alias d)) (map snd (ih_imports h) ++ ih_shadowed h)) ->
+  forall pi pi' srt srt', iter_ok pi -> iter_ok pi' ->
+  sort_ok import_lt srt -> sort_ok import_lt srt' ->
+  get_active pi srt h = get_active pi' srt' h.
+Proof. exact get_active_indep_nodup. Qed.
 
 (* --- gerror ----------------------------------------------------------------------------- *)
 
@@ -256,30 +280,59 @@ Proof.
   exact C14_ex_gsort_rev.
 Qed.
 
-(* imports: calcImports over two import specs, then two addNamed calls (one hit, one miss) *)
-Definition ex_imap : imap :=
-  add_named "sort" "sort" true
-    (add_named "fmt" "fmt" true
-       (calc_imports [("fmt", "", false); ("github.com/x/set", "set", true)])).
-Example C14_ex_imap_inv : imap_inv ex_imap.
-Proof. exact (C14_add_named_inv _ _ _ _ (C14_add_named_inv _ _ _ _ (C14_calc_imports_inv _))). Qed.
-Example C14_ex_imap_value :
-  ex_imap =
-  [ ("fmt", {| im_alias := ""; im_path := "fmt"; im_alias_is_pkg := false; im_inuse := true |});
-    ("github.com/x/set", {| im_alias := "set"; im_path := "github.com/x/set";
-                            im_alias_is_pkg := true; im_inuse := false |});
-    ("sort", {| im_alias := "sort"; im_path := "sort"; im_alias_is_pkg := true;
-                im_inuse := true |}) ].
-Proof. vm_compute. reflexivity. Qed.
-Example C14_ex_active_all : forall pi srt, iter_ok pi -> sort_ok import_lt srt ->
-  get_active pi srt ex_imap =
-  [ {| im_alias := ""; im_path := "fmt"; im_alias_is_pkg := false; im_inuse := true |};
-    {| im_alias := "sort"; im_path := "sort"; im_alias_is_pkg := true; im_inuse := true |} ].
+(* imports: `import tm "time"; import "fmt"; import "time"` — the first spec of path "time" is
+   overwritten in the map and kept in the shadowed slice; then UseName("tm") (marks the
+   shadowed entry) and addNamed for a type of package fmt *)
+Definition ex_specs : list (string * string * bool) :=
+  [("time", "tm", false); ("fmt", "fmt", true); ("time", "time", true)].
+Definition ex_handler (pi0 : imap -> imap) : ihandler :=
+  add_named_h "fmt" "fmt" true (use_name pi0 "tm" (calc_handler ex_specs)).
+Example C14_ex_shadowed :
+  ih_shadowed (calc_handler ex_specs) =
+  [ {| im_alias := "tm"; im_path := "time"; im_alias_is_pkg := false; im_inuse := false |} ]
+  /\ map fst (ih_imports (calc_handler ex_specs)) = ["time"; "fmt"]
+  /\ use_name_found "tm" (calc_handler ex_specs) = true.
+Proof. vm_compute. repeat split. Qed.
+Example C14_ex_imap_inv : imap_inv (ih_imports (ex_handler (@rev _))).
 Proof.
-  intros pi srt Hp Hs.
-  rewrite (C14_imports ex_imap C14_ex_imap_inv pi (@rev _) srt (isort import_lt)
-             Hp (iter_ok_rev _) Hs C14_sort_ok_import).
-  vm_compute. reflexivity.
+  exact (C14_add_named_inv "fmt" "fmt" true _
+           (C14_use_name_inv (@rev _) "tm" _ (C14_calc_imports_inv ex_specs) (iter_ok_rev _))).
+Qed.
+Example C14_ex_handler_value :
+  ex_handler (@rev _) =
+  {| ih_imports :=
+       [ ("time", {| im_alias := "time"; im_path := "time"; im_alias_is_pkg := true;
+                     im_inuse := false |});
+         ("fmt", {| im_alias := "fmt"; im_path := "fmt"; im_alias_is_pkg := true;
+                    im_inuse := true |}) ];
+     ih_shadowed :=
+       [ {| im_alias := "tm"; im_path := "time"; im_alias_is_pkg := false; im_inuse := true |} ] |}.
+Proof. vm_compute. reflexivity. Qed.
+Example C14_ex_active_rev :
+  get_active (@rev _) (isort import_lt) (ex_handler (@rev _)) =
+  [ {| im_alias := "fmt"; im_path := "fmt"; im_alias_is_pkg := true; im_inuse := true |};
+    {| im_alias := "tm"; im_path := "time"; im_alias_is_pkg := false; im_inuse := true |} ].
+Proof. vm_compute. reflexivity. Qed.
+(* and, by the theorems, the same for every order of both map ranges and every correct sort *)
+Example C14_ex_active_all : forall pi0 pi srt, iter_ok pi0 -> iter_ok pi ->
+  sort_ok import_lt srt ->
+  get_active pi srt (ex_handler pi0) =
+  [ {| im_alias := "fmt"; im_path := "fmt"; im_alias_is_pkg := true; im_inuse := true |};
+    {| im_alias := "tm"; im_path := "time"; im_alias_is_pkg := false; im_inuse := true |} ].
+Proof.
+  intros pi0 pi srt Hp0 Hp Hs. unfold ex_handler.
+  rewrite (C14_use_name pi0 (@rev _) "tm" (calc_handler ex_specs)
+             (C14_calc_imports_inv ex_specs) Hp0 (iter_ok_rev _)).
+  fold (ex_handler (@rev _)).
+  rewrite (C14_imports_nodup (ex_handler (@rev _))) with (pi' := @rev _)
+                                                         (srt' := isort import_lt).
+  - exact C14_ex_active_rev.
+  - vm_compute. repeat constructor; cbn [In]; intros K; repeat destruct K as [K|K];
+      try discriminate K; exact K.
+  - exact Hp.
+  - apply iter_ok_rev.
+  - exact Hs.
+  - exact C14_sort_ok_import.
 Qed.
 
 (* genum: two unsafe duplicate groups; stripping commutes, the traits come out the same in both
@@ -353,7 +406,10 @@ Print Assumptions C14_warning_order_is_choice.
 Print Assumptions C14_imap_inv_def.
 Print Assumptions C14_calc_imports_inv.
 Print Assumptions C14_add_named_inv.
+Print Assumptions C14_use_name.
+Print Assumptions C14_use_name_inv.
 Print Assumptions C14_imports.
+Print Assumptions C14_imports_nodup.
 Print Assumptions C14_gerror.
 Print Assumptions C14_gerror_print.
 Print Assumptions C14_gerror_clone.
